@@ -40,7 +40,7 @@ from harness.translate import gen as G
 PROPERTY = "C10"
 LEAN_MODULES = ["SigpyVerif.Props.C10", "SigpyVerif.Props.C10Ml"]
 THEOREMS = ["SigpyVerif.C10." + t for t in [
-    "zshape_spec", "zshape_sites_agree", "shape_consistent", "inverse_mirrors_forward", "pad_extra_zero_in_front",
+    "zshape_spec", "zshape_sites_agree", "shape_consistent", "inverse_mirrors_forward", "glue_returns", "pad_extra_zero_in_front",
     "crop_is_pad_adjoint", "pad_crop",
     "synthesis_is_adjoint", "qmf_perfect_reconstruction", "qmf_isometry_1level",
     "haar_supported", "haar_complete", "haar_orthonormal", "haar_real",
@@ -703,7 +703,12 @@ class _Rec:
         f = getattr(self._real, name)
         if name in ("wavedecn", "waverecn", "coeffs_to_array", "array_to_coeffs"):
             def wrap(*a, **k):
-                self.calls.append((name, a, k))
+                # arguments by PARAMETER NAME of the PyWavelets function (positional / keyword spelling and explicitly
+                # passed defaults of the caller do not matter), omitted ones with PyWavelets' default
+                import inspect
+                ba = inspect.signature(f).bind(*a, **k)
+                ba.apply_defaults()
+                self.calls.append((name, dict(ba.arguments)))
                 return f(*a, **k)
             return wrap
         return f
@@ -789,18 +794,18 @@ def stream_packing_reified(ctx, rng, names):
                     problems.append("shapes of .H/.H.H")
             decs = [c for c in calls if c[0] == "wavedecn"]
             recs = [c for c in calls if c[0] == "waverecn"]
-            for nm_, a, k in decs:
-                if not (list(np.shape(a[0])) == zshape and a[1] == name and k.get("mode") == "zero"
-                        and k.get("axes") == axes and k.get("level") == level and len(a) == 2):
-                    problems.append("wavedecn(%s, %r, %r)" % (list(np.shape(a[0])), a[1:], k))
-            for nm_, a, k in recs:
-                if not (a[1] == name and k.get("mode") == "zero" and k.get("axes") == axes and len(a) == 2):
-                    problems.append("waverecn(%r, %r)" % (a[1:], k))
-            for nm_, a, k in [c for c in calls if c[0] == "coeffs_to_array"]:
-                if not (k.get("axes") == axes and len(a) == 1):
-                    problems.append("coeffs_to_array(%r)" % (k,))
-            for nm_, a, k in [c for c in calls[n_f:] if c[0] == "array_to_coeffs"]:
-                if not (_slices_eq(a[1], Wi.coeff_slices) and k.get("output_format") == "wavedecn"):
+            for nm_, A in decs:
+                if not (list(np.shape(A["data"])) == zshape and A["wavelet"] == name and A["mode"] == "zero"
+                        and A["axes"] == axes and A["level"] == level):
+                    problems.append("wavedecn(%s, %r)" % (list(np.shape(A["data"])), {k: v for k, v in A.items() if k != "data"}))
+            for nm_, A in recs:
+                if not (A["wavelet"] == name and A["mode"] == "zero" and A["axes"] == axes):
+                    problems.append("waverecn(%r)" % ({k: v for k, v in A.items() if k != "coeffs"},))
+            for nm_, A in [c for c in calls if c[0] == "coeffs_to_array"]:
+                if not (A["axes"] == axes and isinstance(A["padding"], int) and A["padding"] == 0):
+                    problems.append("coeffs_to_array(%r)" % ({k: v for k, v in A.items() if k != "coeffs"},))
+            for nm_, A in [c for c in calls[n_f:] if c[0] == "array_to_coeffs"]:
+                if not (_slices_eq(A["coeff_slices"], Wi.coeff_slices) and A["output_format"] == "wavedecn"):
                     problems.append("array_to_coeffs slices/format")
             if len(decs) < 3 or len(recs) != 1:
                 problems.append("call counts dec=%d rec=%d" % (len(decs), len(recs)))
